@@ -77,7 +77,8 @@ def a_tok(a):
     raise ValueError(a)
 
 
-def prog_awk(p):
+def prog_items(p):
+    """top-level items of the rendered program, in source order"""
     out = ["@global %s, DIR, ZZ;" % ", ".join("g%d" % i for i in range(p["ng"]))]
     for (name, spec, nl, body) in p["funs"]:
         params = ", ".join(("&" if s == "r" else "") + "a%d" % i for i, s in enumerate(spec))
@@ -88,7 +89,19 @@ def prog_awk(p):
             nl, body = p[key]
             lcl = ("@local %s; " % ", ".join("l%d" % i for i in range(nl))) if nl else ""
             out.append("%s { %s%s }" % (kw, lcl, " ".join(a_awk(a) for a in body)))
-    return "\n".join(out) + "\n"
+    return out
+
+
+def prog_awk(p):
+    return "\n".join(prog_items(p)) + "\n"
+
+
+def prog_pieces(p, k):
+    """the program text cut into k source pieces at top-level item boundaries (like k `-f` files)"""
+    items = prog_items(p)
+    k = max(1, min(k, len(items)))
+    cuts = [round(i * len(items) / k) for i in range(k + 1)]
+    return ["\n".join(items[cuts[i]:cuts[i + 1]]) + "\n" for i in range(k)]
 
 
 def prog_lines(p):
@@ -125,6 +138,16 @@ def base_funs(site):
         ("deep", "v", 1, [("setg", 2, P(G(2), "r")), ("call", 0, next(site), "deep", [P(A(0), "a")]), ("ret", V(0))]),  # recursion until ESTACK
         ("undef", "", 1, [("setg", 1, L("u")), ("call", 0, next(site), "nosuch", [L("a")]), ("ret", L("u"))]),
         ("toomany", "", 1, [("call", 0, next(site), "getg", [L("a")]), ("ret", L("t"))]),
+        # calls made from the script to functions with by-reference parameters: the final value is copied back
+        ("tomap", "r", 0, [("mapset", 0, "k", L("v")), ("ret", L("m"))]),            # turns its by-ref parameter into a map and returns
+        ("viaref", "v", 1, [("setg", 0, A(0)), ("call", 0, next(site), "byref", [G(0)]), ("ret", ("C", V(0), G(0)))]),   # copy-back to a global
+        ("locref", "v", 2, [("setl", 1, A(0)), ("call", 0, next(site), "byref", [V(1)]), ("call", 0, next(site), "refret", [A(0), V(1)]), ("ret", ("C", V(1), A(0)))]),
+        ("posset", "", 1, [("call", 0, next(site), "byref", [("R",)]), ("ret", ("R",))]),           # copy-back to $0
+        ("posref", "", 1, [("call", 0, next(site), "tomap", [("R",)]), ("ret", L("after"))]),     # copy-back rejected AFTER the callee returned
+        ("posquit", "", 1, [("call", 0, next(site), "zquit", [("R",)]), ("ret", L("after"))]),    # callee exits: no copy-back to $0
+        ("lateref", "", 1, [("call", 0, next(site), "zref", [P(L("a"), "b")]), ("ret", V(0))]),   # not referenceable (callee defined later)
+        ("zquit", "r", 0, [("mapset", 0, "k", L("v")), ("exit", L("zq"))]),
+        ("zref", "r", 0, [("seta", 0, L("z")), ("ret", L("L"))]),
     ]
 
 
@@ -141,7 +164,15 @@ def gen_expr(rng, nargs, nl, depth=0):
     return rng.choice(atoms)
 
 
-def gen_body(rng, nargs, nl, names, arity, site, in_block=False):
+def gen_lvalue(rng, nargs, nl):
+    """an expression a by-reference parameter can be bound to (NR is left out: a special global)"""
+    c = [("G", rng.randrange(NG)), ("R",)]
+    if nargs: c += [("A", rng.randrange(nargs))] * 2
+    if nl: c += [("V", rng.randrange(nl))] * 2
+    return rng.choice(c)
+
+
+def gen_body(rng, nargs, nl, names, specs, site, in_block=False):
     body = []
     for _ in range(rng.randrange(1, 7)):
         k = rng.random()
@@ -158,9 +189,13 @@ def gen_body(rng, nargs, nl, names, arity, site, in_block=False):
         elif k < 0.72 and not in_block: body.append(("ret", None if rng.random() < 0.2 else ex()))
         elif k < 0.90 and nl:
             f = rng.choice(names)
-            n = arity.get(f, 1)
+            spec = specs.get(f, "v")
+            n = len(spec)
             na = n if rng.random() < 0.8 else rng.randrange(0, n + 2)
-            body.append(("call", rng.randrange(nl), next(site), f, [ex() for _ in range(na)]))
+            # a by-reference position always gets a variable or $0 (anything else is rejected by the parser
+            # when the callee is already defined)
+            body.append(("call", rng.randrange(nl), next(site), f,
+                         [gen_lvalue(rng, nargs, nl) if (i < n and spec[i] == "r") else ex() for i in range(na)]))
         elif nargs: body.append(("mapset", rng.randrange(nargs), rng.choice(["k", "j", "m"]), ex()))
         else: body.append(("setg", rng.randrange(NG), ex()))
     if not in_block and rng.random() < 0.7:
@@ -175,26 +210,24 @@ def gen_prog(rng, nextra=None):
     sigs = []
     for i in range(nextra):
         nargs = rng.randrange(0, 4)
-        spec = "".join("r" if rng.random() < 0.25 else "v" for _ in range(nargs))
+        spec = "".join("r" if rng.random() < 0.3 else "v" for _ in range(nargs))
         sigs.append(("u%d" % i, spec, rng.randrange(0, 3)))
-    # awk-level calls only target functions without by-reference parameters (copy-back is not modelled)
-    callable_ = [f[0] for f in funs if "r" not in f[1]] + [s[0] for s in sigs if "r" not in s[1]]
-    callable_ = [n for n in callable_ if n != "deep"] + ["nosuch"]
-    arity = {f[0]: len(f[1]) for f in funs}
-    arity.update({s[0]: len(s[1]) for s in sigs})
-    # the call graph of the random functions is acyclic (u<i> calls only u<j>, j < i): `deep` is the one
-    # (linearly) recursive function; branching recursion would need 2^depth steps on both sides
-    base_callable = [n for n in callable_ if not n.startswith("u")]
+    specs = {f[0]: f[1] for f in funs}
+    specs.update({s2[0]: s2[1] for s2 in sigs})
+    # the call graph of the random functions is acyclic (u<i> calls only library functions and u<j>, j < i):
+    # `deep` is the one (linearly) recursive function; branching recursion would need 2^depth steps on both sides
+    base_callable = [f[0] for f in funs if f[0] not in ("deep", "zref", "zquit")] + ["nosuch"]
     for i, (name, spec, nl) in enumerate(sigs):
-        mine = base_callable + [s2[0] for s2 in sigs[:i] if "r" not in s2[1]]
-        funs.append((name, spec, nl, gen_body(rng, len(spec), nl, mine, arity, site)))
+        mine = base_callable + [s2[0] for s2 in sigs[:i]]
+        funs.append((name, spec, nl, gen_body(rng, len(spec), nl, mine, specs, site)))
+    callable_ = base_callable + [s2[0] for s2 in sigs]
     p = dict(ng=NG, funs=funs)
     if rng.random() < 0.8:
         nl = rng.randrange(0, 2)
-        p["begin"] = (nl, gen_body(rng, 0, nl, callable_, arity, site, in_block=True))
+        p["begin"] = (nl, gen_body(rng, 0, nl, callable_, specs, site, in_block=True))
     if rng.random() < 0.6:
         nl = rng.randrange(0, 2)
-        p["end"] = (nl, gen_body(rng, 0, nl, callable_, arity, site, in_block=True))
+        p["end"] = (nl, gen_body(rng, 0, nl, callable_, specs, site, in_block=True))
     return p
 
 
@@ -291,11 +324,15 @@ class Env:
         return d
 
 
-def write_prog(env, p):
+def write_prog(env, p, npieces=1):
+    """-> the paths of the source pieces, space separated (the argument of the `parse` line)"""
     d = env.scratch()
-    path = os.path.join(d, "p.awk")
-    open(path, "w").write(prog_awk(p))
-    return path
+    paths = []
+    for i, txt in enumerate(prog_pieces(p, npieces)):
+        path = os.path.join(d, "p%d.awk" % i)
+        open(path, "w").write(txt)
+        paths.append(path)
+    return " ".join(paths)
 
 
 def run_c(env, lines):
@@ -463,11 +500,12 @@ def run_model_batch(env, runs):
 
 class Case:
     """one generated case: program + interleaved ops (kind 'inter'), or a reset/reparse sequence (kind 'reparse')"""
-    def __init__(self, kind, p, ops, p0=None, ops0=None, how=None, origin="gen"):
+    def __init__(self, kind, p, ops, p0=None, ops0=None, how=None, origin="gen", np=1, np0=1):
         self.kind, self.p, self.ops, self.p0, self.ops0, self.how, self.origin = kind, p, ops, p0, ops0, how, origin
+        self.np, self.np0 = np, np0       # number of source pieces of the (second) program / of the first program
 
     def to_json(self):
-        return dict(kind=self.kind, p=self.p, ops=self.ops, p0=self.p0, ops0=self.ops0, how=self.how)
+        return dict(kind=self.kind, p=self.p, ops=self.ops, p0=self.p0, ops0=self.ops0, how=self.how, np=self.np, np0=self.np0)
 
     @staticmethod
     def from_json(d, origin="corpus"):
@@ -482,7 +520,8 @@ class Case:
                 if p.get(key):
                     q[key] = (p[key][0], [tup(a) for a in p[key][1]])
             return q
-        return Case(d["kind"], prog(d["p"]), d["ops"], prog(d.get("p0")), d.get("ops0"), d.get("how"), origin)
+        return Case(d["kind"], prog(d["p"]), d["ops"], prog(d.get("p0")), d.get("ops0"), d.get("how"), origin,
+                    np=d.get("np", 1), np0=d.get("np0", 1))
 
 
 def head_lines(p, awkpath):
@@ -491,7 +530,7 @@ def head_lines(p, awkpath):
 
 def case_runs(env, case):
     """-> (runs, meta): the C runs this case needs. meta[i] = ('inter'|'proj'|'fresh', ctx)"""
-    awk = write_prog(env, case.p)
+    awk = write_prog(env, case.p, case.np)
     case.awk = awk
     runs, meta = [], []
     if case.kind == "inter":
@@ -499,7 +538,7 @@ def case_runs(env, case):
         for c in sorted({op_ctx(o) for o in case.ops if op_ctx(o) is not None}):
             runs.append(["new"] + head_lines(case.p, awk) + [o for o in case.ops if op_ctx(o) == c] + ["fin"]); meta.append(("proj", c))
     else:
-        awk0 = write_prog(env, case.p0)
+        awk0 = write_prog(env, case.p0, case.np0)
         reset = {"clear": ["clear"], "parsebad": ["parsebad /nonexistent/x.awk"], "none": [], "both": ["clear", "parsebad /nonexistent/y.awk", "clear"]}[case.how]
         runs.append(["new"] + head_lines(case.p0, awk0) + case.ops0 + reset + head_lines(case.p, awk) + case.ops + ["fin"]); meta.append(("inter", None))
         runs.append(["new"] + head_lines(case.p, awk) + case.ops + ["fin"]); meta.append(("fresh", None))
@@ -585,7 +624,10 @@ def gen_reparse(rng):
         p = dict(ng=NG, funs=[f for f in p["funs"] if rng.random() < 0.6 or f[0] in ("getg", "setg")])
     ops0 = gen_history(rng, p0, rng.randrange(3, 14), nctx=2)     # ends with every context closed
     ops = gen_history(rng, p, rng.randrange(3, 14), nctx=2)
-    return Case("reparse", p, ops, p0=p0, ops0=ops0, how=rng.choice(["clear", "clear", "parsebad", "none", "both"]))
+    # the sources come in several pieces, more for the first program than for the second most of the time
+    np0 = rng.choice([1, 2, 3, 4])
+    np = rng.choice([1, 1, 2]) if rng.random() < 0.7 else rng.choice([2, 3, 5])
+    return Case("reparse", p, ops, p0=p0, ops0=ops0, how=rng.choice(["clear", "clear", "parsebad", "none", "both"]), np=np, np0=np0)
 
 
 def fixed_prog():
@@ -599,9 +641,9 @@ def fixed_prog():
 def exhaustive_cases(full):
     """every sequence of length 3 over a small op alphabet on two contexts of the fixed program"""
     alpha = ["call 0 setg s:a", "call 1 getg", "call 0 boom s:b", "call 0 quit2 s:q", "call 1 deep s:d", "call 0 pr s:p",
-             "loop 0", "halt 1", "call 0 getg", "call 1 byref s:r"]
+             "loop 0", "halt 1", "call 0 getg", "call 1 byref s:r", "call 0 posref", "call 1 viaref s:x"]
     if full:
-        alpha += ["call 0 refret s:x s:y", "call 1 rd", "setgbl 0 0 s:g", "call 0 undef", "call 1 toomany", "call 0 cl"]
+        alpha += ["call 0 refret s:x s:y", "call 0 rd", "setgbl 0 0 s:g", "call 0 undef", "call 0 posset"]
     p = fixed_prog()
     out = []
     for seq in itertools.product(alpha, repeat=3):
@@ -647,12 +689,12 @@ def case_lines_of(case):
 def shrink(env, case, fails):
     """ddmin over the op list (program kept); fails(case) -> bool"""
     def f(sub):
-        return fails(Case(case.kind, case.p, list(sub), case.p0, case.ops0, case.how))
+        return fails(Case(case.kind, case.p, list(sub), case.p0, case.ops0, case.how, np=case.np, np0=case.np0))
     small = C.ddmin(case.ops, f, max_tests=60)
-    c2 = Case(case.kind, case.p, list(small), case.p0, case.ops0, case.how)
+    c2 = Case(case.kind, case.p, list(small), case.p0, case.ops0, case.how, np=case.np, np0=case.np0)
     if case.kind == "reparse" and case.ops0:
         def g(sub):
-            return fails(Case(case.kind, case.p, c2.ops, case.p0, list(sub), case.how))
+            return fails(Case(case.kind, case.p, c2.ops, case.p0, list(sub), case.how, np=case.np, np0=case.np0))
         c2.ops0 = list(C.ddmin(case.ops0, g, max_tests=40))
     return c2
 
@@ -660,7 +702,7 @@ def shrink(env, case, fails):
 def replay_text(env, case, r, note):
     import json
     txt = ["# C09 " + note, "# JSON case (program + ops) — replay with: ./check C09 --replay <this file>", "#JSON " + json.dumps(case.to_json())]
-    txt.append("# awk program:")
+    txt.append("# awk program (%d source piece(s)%s):" % (case.np, (", first program %d" % case.np0) if case.kind == "reparse" else ""))
     txt += ["#   " + l for l in prog_awk(case.p).splitlines()]
     txt.append("# op | implementation | model")
     run0 = r["runs"][0]
@@ -704,7 +746,7 @@ def run(ctx):
     cases += exhaustive_cases(full=not quick)
     for _ in range(140 if quick else 2500):
         p = gen_prog(rng)
-        cases.append(Case("inter", p, gen_history(rng, p, rng.randrange(6, 45), nctx=rng.choice([2, 3, 3]))))
+        cases.append(Case("inter", p, gen_history(rng, p, rng.randrange(6, 45), nctx=rng.choice([2, 3, 3])), np=rng.choice([1, 1, 2, 3])))
     for _ in range(30 if quick else 400):
         cases.append(gen_reparse(rng))
     results = check_cases(env, cases, model=True)
@@ -758,12 +800,12 @@ def run(ctx):
     nontriv = len({(prog_awk(c.p), tuple(c.ops)) for c, r in zip(cases, results) if c.kind == "inter" and nontrivial(c, r["results"])})
     samples = [" ; ".join(c.ops[:9]) for c in cases[ncorpus + 5:ncorpus + 6] + cases[-40:-38] + cases[-2:-1]]
     return C.finish(ctx, [proof], evaluations, nontriv,
-                    "cases = corpus + every length-3 sequence over a %d-op alphabet on two contexts of a fixed program + seeded random programs (14 library functions: global-derived value, global setter, run-time failure, exit direct and nested, by-reference parameters, map mutation, console+file output, close, getline, recursion to ESTACK, undefined callee, too many arguments; plus 1-4 random functions, random BEGIN/END) with random interleavings of open/call/loop/exec/setgbl/getgbl/halt/mkstr/mkmap/drop/show/close over 2-3 contexts + reset/re-parse sequences (clear, failed parse, plain re-parse) with different programs; "
+                    "cases = corpus + every length-3 sequence over a %d-op alphabet on two contexts of a fixed program + seeded random programs (23 library functions: global-derived value, global setter, run-time failure, exit direct and nested, by-reference parameters, map mutation, console+file output, close, getline, recursion to ESTACK, undefined callee, too many arguments, script-level calls that copy by-reference parameters back to globals/locals/parameters/$0 incl. a copy-back rejected after the callee returned; plus 1-4 random functions, random BEGIN/END) with random interleavings of open/call/loop/exec/setgbl/getgbl/halt/mkstr/mkmap/drop/show/close over 2-3 contexts + reset/re-parse sequences (clear, failed parse, plain re-parse) with different programs whose sources come in 1-5 pieces of differing counts; "
                     "each interleaving is run on the real code interleaved AND as per-context projections on fresh interpreters (observations incl. reference counts, exit level, stack height, rio chain, NR, console, files, live blocks per context must be identical), and the interleaved run is compared line by line with the Lean driver; "
-                    "distinct_nontrivial = distinct interleavings where at least two contexts ran a function body and a call failed at run time or exited with a later call on the same context" % (10 if quick else 16),
+                    "distinct_nontrivial = distinct interleavings where at least two contexts ran a function body and a call failed at run time or exited with a later call on the same context" % (12 if quick else 17),
                     samples, extra_cov=dict(op_distribution=dist, call_outcomes=outcomes, cases=len(cases), impl_status=status,
                                             reparse_cases=sum(1 for c in cases if c.kind == "reparse")),
-                    trusted=["run.c/hawk.c API paths modelled by hand in HawkModel/Ctx.lean over an abstract action language (expressions: literals, variables, $0, NR, concatenation, length); awk-level calls to functions with by-reference parameters, pattern-action blocks, pipes, getline from files, modules and the garbage collector are not modelled",
+                    trusted=["run.c/hawk.c API paths modelled by hand in HawkModel/Ctx.lean over an abstract action language (expressions: literals, variables, $0, NR, concatenation, length); pattern-action blocks, pipes, getline from files, modules and the garbage collector are not modelled",
                              "rendering of abstract programs to awk text (vlib/props/c09.py) and the hidden globals DIR/ZZ",
                              "model clears dead stack slots and ignores variable references outside the frame (unobservable; the parser never produces them)"],
                     assumptions=["interleaving at API-call granularity from one thread; true thread-level concurrency (data races on call->u.fun.fun, hawk->haltall) is out of scope",
